@@ -581,10 +581,16 @@ func (e *Engine) fillModel(st *State, v *Violation) {
 			continue
 		}
 		steps = append(steps, n.Step)
+		for i := len(n.Gates) - 1; i >= 0; i-- {
+			v.Gates = append(v.Gates, n.Gates[i])
+		}
 		n = n.Parent
 	}
 	for i, j := 0, len(steps)-1; i < j; i, j = i+1, j-1 {
 		steps[i], steps[j] = steps[j], steps[i]
+	}
+	for i, j := 0, len(v.Gates)-1; i < j; i, j = i+1, j-1 {
+		v.Gates[i], v.Gates[j] = v.Gates[j], v.Gates[i]
 	}
 	v.Trace = append(steps, v.Trace...)
 }
